@@ -36,6 +36,7 @@ type Scenario struct {
 	Symmetric   []string // see vsched.Config.Symmetric
 	StartMs     int64    // virtual clock start (unix ms); 0 = default
 	FreeCost    int      // see vsched.Config.FreeSwitchCost
+	NoStmtYield bool     // see vsched.Config.NoStmtYield
 	// AutoDelay > 0: if the schedules with 0 preemptions alone (the free choices at
 	// blocking points) number more than AutoDelay, the scenario is explored with
 	// delay bounding (FreeCost = 1) and bound AutoDelayBound instead.
@@ -72,7 +73,7 @@ func RunOne(sc *Scenario, prefix []int, trace bool) (obs string, f *Failure, rec
 	ch := &explore.Chooser{Prefix: prefix}
 	x := sc.New()
 	out = vsched.Run(vsched.Config{MaxSteps: sc.MaxSteps, TimerBudget: sc.TimerBudget,
-		Monitor: x.Monitor, Trace: trace, Symmetric: sc.Symmetric, StartMs: sc.StartMs, FreeSwitchCost: sc.FreeCost}, adapter{ch}, x.Main)
+		Monitor: x.Monitor, Trace: trace, Symmetric: sc.Symmetric, StartMs: sc.StartMs, FreeSwitchCost: sc.FreeCost, NoStmtYield: sc.NoStmtYield}, adapter{ch}, x.Main)
 	obs, f = x.Finish(out)
 	if ch.Diverge != "" && f == nil {
 		f = &Failure{Class: "", Msg: "NONDETERMINISM: " + ch.Diverge}
@@ -169,7 +170,7 @@ func prepare(c *lib.Ctx, sc *Scenario) *expState {
 		probe := explore.Explore(func(ch *explore.Chooser) string {
 			x := sc.New()
 			out := vsched.Run(vsched.Config{MaxSteps: sc.MaxSteps, TimerBudget: sc.TimerBudget,
-				Monitor: x.Monitor, Symmetric: sc.Symmetric, StartMs: sc.StartMs}, adapter{ch}, x.Main)
+				Monitor: x.Monitor, Symmetric: sc.Symmetric, StartMs: sc.StartMs, NoStmtYield: sc.NoStmtYield}, adapter{ch}, x.Main)
 			obs, _ := x.Finish(out)
 			return obs
 		}, explore.Options{Bound: 0, MaxExecutions: sc.AutoDelay, Stop: c.Expired})
@@ -195,7 +196,7 @@ func (es *expState) runBound(c *lib.Ctx, bound int, stop func() bool) {
 	run := func(ch *explore.Chooser) string {
 		x := sc.New()
 		out := vsched.Run(vsched.Config{MaxSteps: sc.MaxSteps, TimerBudget: sc.TimerBudget,
-			Monitor: x.Monitor, Symmetric: sc.Symmetric, StartMs: sc.StartMs, FreeSwitchCost: sc.FreeCost}, adapter{ch}, x.Main)
+			Monitor: x.Monitor, Symmetric: sc.Symmetric, StartMs: sc.StartMs, FreeSwitchCost: sc.FreeCost, NoStmtYield: sc.NoStmtYield}, adapter{ch}, x.Main)
 		obs, f := x.Finish(out)
 		if ch.Diverge != "" {
 			lib.Infra("scenario %s: replay diverged: %s", sc.Name, ch.Diverge)
